@@ -255,6 +255,7 @@ IDENTITY_FNS = (
 
 
 TAG_IDENTITY_FNS = (
+    'std::iter::IntoIterator::into_iter',
     'std::future::IntoFuture::into_future', 'std::ops::Deref::deref', 'std::ops::DerefMut::deref_mut',
     'std::convert::Into::into', 'std::clone::Clone::clone', 'std::pin::Pin::<Ptr>::new_unchecked',
 )
@@ -292,7 +293,7 @@ def tag_of_place(pl, tags):
             continue
         if e['k'] == 'field':
             # unwrap one constructor layer: ok(X) -> X ; cont(X) -> X ; some(X) -> X
-            if '(' in cur and cur.endswith(')') and e['i'] == 0:
+            if '(' in cur and cur.endswith(')') and (e['i'] == 0 or cur.startswith('tup(')):
                 cur = cur[cur.index('(') + 1:-1]
                 if cur == '':
                     return None
@@ -321,13 +322,14 @@ def head(tag):
 
 
 class Frame:
-    __slots__ = ('body', 'ctx', 'argtags', 'chain')
+    __slots__ = ('body', 'ctx', 'argtags', 'chain', 'shapes')
 
-    def __init__(self, body, ctx, argtags, chain):
+    def __init__(self, body, ctx, argtags, chain, shapes=()):
         self.body = body
         self.ctx = ctx
         self.argtags = argtags
         self.chain = chain
+        self.shapes = shapes      # per argument: 'none' | 'some()' | 'T' | 'F' | None
 
     def where(self, bi):
         return self.body.where(bi)
@@ -340,6 +342,12 @@ class Domain:
     """Client interface.  Tokens must be hashable.  All hooks return a list of
     (token, tag_for_destination_or_None); an empty list kills the path."""
     name = 'domain'
+    # merge=True: one token per (block, tags), joined with `join` (classic
+    # may-analysis); merge=False: fully disjunctive
+    merge = False
+    # number of caller frames that are part of the tabulation key (call-string
+    # sensitivity); needed when a domain attributes events to callers
+    callstring_k = 0
 
     def initial(self):
         return frozenset()
@@ -405,7 +413,10 @@ class Interp:
         self.max_rounds = max_rounds
         self.units_seen = set()
         self.stats = {'units': 0, 'steps': 0, 'awaits': 0, 'calls': 0}
+        self._csc = {}
+        self._cpc = {}
         self.unresolved = []   # analysis errors (unresolvable awaits)
+        self._cur_shapes = ()
         self.visited_sites = set()
 
     # ------------------------------------------------------------------ entry
@@ -422,8 +433,30 @@ class Interp:
         raise AnalysisError('summaries did not stabilise for %s' % body.path)
 
     # ------------------------------------------------------------------ tabulation
-    def analyze(self, body, ctx, argtags, tok, chain):
-        key = (body.path, ctx, argtags, tok)
+    def static_shapes(self, body, term):
+        """Shape of each argument of a call when it is fixed at the call site
+        (a literal None / Some(..) / true / false built right there)."""
+        if term is None:
+            return ()
+        out = []
+        defs = self.p.defs(body)
+        for a in term['args']:
+            sh = None
+            if a['k'] == 'const' and a.get('v') is not None and self.f.types[a['t']].get('p') == 'bool':
+                sh = 'T' if a['v'] != '0' else 'F'
+            elif a['k'] in ('copy', 'move') and not a['pl']['p']:
+                ds = defs.get(a['pl']['l'], [])
+                if len(ds) == 1 and ds[0][0] == 'st':
+                    rv = body.blocks[ds[0][1]]['st'][ds[0][2]]['rv']
+                    if rv['k'] == 'agg' and rv.get('p') == 'std::option::Option':
+                        sh = 'some()' if rv.get('vn') == 'Some' else 'none'
+            out.append(sh)
+        return tuple(out)
+
+    def analyze(self, body, ctx, argtags, tok, chain, shapes=()):
+        k_ = self.d.callstring_k
+        cs = tuple(c.split('@')[0] for c in chain[-(k_ + 1):-1]) if k_ else ()
+        key = (body.path, ctx, argtags, tok, shapes, cs)
         if key in self.in_progress:
             return self.summ.get(key, {})
         if key in self.round_done:
@@ -431,21 +464,56 @@ class Interp:
         self.in_progress.add(key)
         self.units_seen.add((body.path, ctx))
         self.stats['units'] += 1
-        fr = Frame(body, ctx, argtags, chain)
+        fr = Frame(body, ctx, argtags, chain, shapes)
         exits = {}
         work = [(0, tok, ())]
         seen = set()
+        merged_at = {}
+        merge = self.d.merge
         while work:
             bi, t, tags = work.pop()
-            k = (bi, t, tags)
-            if k in seen:
-                continue
-            seen.add(k)
+            if merge:
+                mk = (bi, tags)
+                old = merged_at.get(mk)
+                if old is not None:
+                    nt_ = self.d.join(old, t)
+                    if nt_ == old:
+                        continue
+                    t = nt_
+                merged_at[mk] = t
+            else:
+                k = (bi, t, tags)
+                if k in seen:
+                    continue
+                seen.add(k)
             self.stats['steps'] += 1
             for nb, nt, ntags in self.step(fr, bi, t, dict(tags), exits):
                 work.append((nb, nt, tuple(sorted(ntags.items()))))
+        if merge:
+            for k2 in list(exits):
+                acc = None
+                for v in exits[k2]:
+                    acc = v if acc is None else self.d.join(acc, v)
+                exits[k2] = {acc}
         old = self.summ.get(key)
-        if old is None or any(not (v <= old.get(k, set())) for k, v in exits.items()):
+        if merge and old is not None:
+            newd = dict(old)
+            ch = False
+            for k2, v in exits.items():
+                (nv,) = tuple(v)
+                if k2 in newd:
+                    (ov,) = tuple(newd[k2])
+                    jv = self.d.join(ov, nv)
+                    if jv != ov:
+                        newd[k2] = {jv}
+                        ch = True
+                else:
+                    newd[k2] = {nv}
+                    ch = True
+            if ch:
+                self.summ[key] = newd
+                self.changed = True
+        elif old is None or any(not (v <= old.get(k, set())) for k, v in exits.items()):
             merged = dict(old or {})
             for k2, v in exits.items():
                 merged[k2] = merged.get(k2, set()) | v
@@ -458,6 +526,7 @@ class Interp:
     # ------------------------------------------------------------------ one block
     def step(self, fr, bi, tok, tags, exits):
         body = fr.body
+        self._cur_shapes = fr.shapes
         bl = body.blocks[bi]
         d = self.d
         for si, s in enumerate(bl['st']):
@@ -503,7 +572,15 @@ class Interp:
         dst = pl['l']
         k = rv['k']
         new = None
-        if k == 'use':
+        if k == 'ref' and all(e['k'] == 'deref' for e in rv['pl']['p']):
+            new = tags.get(rv['pl']['l'])
+        elif k == 'use' and rv['ops'][0]['k'] in ('copy', 'move') and rv['ops'][0]['pl']['l'] == 1 \
+                and body.is_coroutine and self._cur_shapes:
+            # `_n = _1.<i>`: capture i of an async fn body = argument i
+            fs = [e for e in rv['ops'][0]['pl']['p'] if e['k'] == 'field']
+            if len(fs) == 1 and fs[0]['i'] < len(self._cur_shapes):
+                new = self._cur_shapes[fs[0]['i']]
+        elif k == 'use':
             new = tag_of_operand(rv['ops'][0], tags)
             o = rv['ops'][0]
             if o['k'] == 'const' and o.get('v') is not None:
@@ -668,6 +745,23 @@ class Interp:
             elif rt is not None and rt.get('p') == 'std::option::Option':
                 new = 'none'
             return finish([(tok, new)])
+        if fn in ('std::option::Option::<T>::is_some', 'std::option::Option::<T>::is_none',
+                  'std::result::Result::<T, E>::is_ok', 'std::result::Result::<T, E>::is_err') and t['args']:
+            h = head(tag_of_operand(t['args'][0], tags))
+            pos = {'is_some': 'some', 'is_none': 'none', 'is_ok': 'ok', 'is_err': 'err'}[fn.split('::')[-1]]
+            neg = {'some': 'none', 'none': 'some', 'ok': 'err', 'err': 'ok'}[pos]
+            new = 'T' if h == pos else ('F' if h == neg else None)
+            return finish([(x, new) for (x, _tg) in d.on_leaf_call(self, fr, tok, tags, bi, t, fn)])
+        if fn == 'std::iter::Iterator::next' and t['args']:
+            tg = tag_of_operand(t['args'][0], tags)
+            if tg is not None and tg.startswith('vec('):
+                inner = tg[4:-1]
+                res = d.on_leaf_call(self, fr, tok, tags, bi, t, fn)
+                outs_ = []
+                for (x, _tg) in res:
+                    outs_.append((x, 'some(%s)' % inner))
+                    outs_.append((x, 'none'))
+                return finish(outs_)
         if is_tag_identity_call(t) and t['args']:
             tg = tag_of_operand(t['args'][0], tags)
             res = d.on_leaf_call(self, fr, tok, tags, bi, t, fn)
@@ -714,11 +808,36 @@ class Interp:
 
     # ------------------------------------------------------------------ awaits
     def creation_sites(self, body, fn_path):
-        out = []
-        for bi, t in body.calls():
-            if t.get('fn') == fn_path:
-                out.append((bi, t))
-        return out
+        k = (body.path, fn_path)
+        c = self._csc.get(k)
+        if c is None:
+            c = [(bi, t) for bi, t in body.calls() if t.get('fn') == fn_path]
+            self._csc[k] = c
+        return c
+
+    def creation_of_poll(self, fr, t, fn_path):
+        """The call terminator that created the future polled by `t` (through
+        into_future / Pin::new_unchecked), or None if it is not unique."""
+        ck = (fr.body.path, id(t), fn_path)
+        if ck in self._cpc:
+            return self._cpc[ck]
+        a0 = t['args'][0]
+        found = []
+        if a0['k'] in ('copy', 'move'):
+            for r in self.p.place_origins(fr.body, a0['pl']):
+                if r[0] == 'call':
+                    ct = fr.body.blocks[r[1]]['term']
+                    if ct.get('fn') == fn_path:
+                        found.append((r[1], ct))
+        res = None
+        if len(found) == 1:
+            res = found[0]
+        else:
+            sites = self.creation_sites(fr.body, fn_path)
+            if len(sites) == 1:
+                res = sites[0]
+        self._cpc[ck] = res
+        return res
 
     def await_(self, fr, bi, tok, tags, t):
         body = fr.body
@@ -750,14 +869,22 @@ class Interp:
             # unordered group: every constituent runs with the effects of all
             # the others possibly already applied
             acc = tok
+            etags = set()
             for _ in range(8):
                 before = acc
                 for fu in futs:
                     for (nt, _tag) in self.one_fut(fr, bi, acc, tags, t, fu):
                         acc = d.join(acc, nt)
+                        etags.add(_tag)
+            # note: the break is after a full pass so that etags is complete
                 if acc == before:
                     break
-            res = [(acc, None)]
+            gtag = None
+            if etags and all(x is not None and head(x) == 'ok' for x in etags):
+                # every constituent returns Ok: the collected results are all Ok
+                multi = self.is_multi(ft, fr.ctx)
+                gtag = ('vec(ok())' if multi else 'tup(ok())')
+            res = [(acc, gtag)]
         outs = []
         for (nt, tag) in res:
             nt = d.on_await_end(self, fr, nt, tags, bi, t, futs)
@@ -810,7 +937,8 @@ class Interp:
                     return hand
                 # argument tags come from the creation site(s) in this body
                 sites = self.creation_sites(fr.body, fu.path)
-                term = sites[0][1] if len(sites) == 1 else None
+                one = self.creation_of_poll(fr, t, fu.path)
+                term = one[1] if one is not None else None
                 ctx = self.p.bind(fnb, fu.targs, ())
                 at = d.argtags(self, fr, tok, tags, term, fnb) if term is not None else ()
                 if term is None and sites:
@@ -819,9 +947,9 @@ class Interp:
                     outs = []
                     for (_sb, st_) in sites:
                         at = d.argtags(self, fr, tok, tags, st_, fnb)
-                        outs += self._enter_co(fr, bi, tok, t, cb, ctx, at, fu)
+                        outs += self._enter_co(fr, bi, tok, t, cb, ctx, at, fu, self.static_shapes(fr.body, st_))
                     return outs
-                return self._enter_co(fr, bi, tok, t, cb, ctx, at, fu)
+                return self._enter_co(fr, bi, tok, t, cb, ctx, at, fu, self.static_shapes(fr.body, term))
             cb = self.f.body(fu.path)
             if cb is None:
                 return d.on_leaf_await(self, fr, tok, tags, bi, t, fu)
@@ -829,14 +957,14 @@ class Interp:
             return self._enter_co(fr, bi, tok, t, cb, ctx, (), fu)
         return d.on_leaf_await(self, fr, tok, tags, bi, t, fu)
 
-    def _enter_co(self, fr, bi, tok, t, cb, ctx, at, fu):
+    def _enter_co(self, fr, bi, tok, t, cb, ctx, at, fu, shapes=()):
         d = self.d
         chain = fr.chain + ('%s@%s' % (short(fu.path), fr.where(bi)),)
-        cfr = Frame(cb, ctx, at, chain)
+        cfr = Frame(cb, ctx, at, chain, shapes)
         itok = d.on_enter(self, fr, tok, cfr, bi, t)
         if itok is None:
             return []
-        summ = self.analyze(cb, ctx, at, itok, chain)
+        summ = self.analyze(cb, ctx, at, itok, chain, shapes)
         outs = []
         for etag, toks in summ.items():
             for et in toks:
